@@ -422,6 +422,10 @@ func slowGenBankOriginParser(length int) pars.Parser {
 			extent += len(prefix)
 
 			for j := 0; j < 60 && i+j < length; j += 10 {
+				if len(q) <= extent {
+					pos.Byte += extent
+					return pars.NewError("expected whitespace", pos)
+				}
 				if q[extent] != spaceByte {
 					pos.Byte += extent
 					return pars.NewError("expected whitespace", pos)
@@ -429,12 +433,23 @@ func slowGenBankOriginParser(length int) pars.Parser {
 				extent++
 
 				for k := 0; k < 10 && i+j+k < length; k++ {
+					if len(q) <= extent {
+						pos.Byte += extent
+						return pars.NewError("expected character", pos)
+					}
 					if !isBaseCharacter(q[extent]) {
 						pos.Byte += extent
 						return pars.NewError("expected character", pos)
 					}
 					extent++
 				}
+			}
+
+			// The line must end after its last group; only trailing blanks
+			// (as written by some vector editors) are tolerated.
+			if len(bytes.TrimRight(q[extent:], " \t")) != 0 {
+				pos.Byte += extent
+				return pars.NewError("expected newline", pos)
 			}
 
 			offset += copy(p[offset:], q[:extent])
